@@ -29,6 +29,13 @@ Ops (tuples; r = R id, a = attribute name):
     ('delete', r) ('delkid', k) ('movekid', k, r2_or_None) ('newkid', k, r) ('setw', k, val)
     ('addtag', r, t) ('rmtag', r, t)
     ('rawread', r, a)            db.get("select a from R where id = $r")   (raw SQL read inside the session)
+    ('commit',)                  commit() in the middle of the session: the session goes on with the same cache; locks
+                                 taken so far are released (run.locked is cleared)
+    ('newrow', r)                create R[r] in this session (values NEW_R)
+    ('objflush', 'R'|'K', id)    obj.flush() of that single object (after a delete/update of it)
+    ('lift', r, c, a)            sorted(R[r].<c>.<a>)  -- item attribute values observed through attribute lifting
+    coll hows, additionally:     bool | load | sorted | list | copy | in:<item id>   (load observes nothing)
+    requery hows, additionally:  prefetch_kids
     ('find', r, a)               R.get(id=r, a=<initial value of a>): the attribute is "read" by being used as a
                                  search criterion; observed (as that value) only when the object is found
 """
@@ -42,7 +49,10 @@ INIT_K = {1: (1, 100), 2: (1, 200), 3: (2, 300), 4: (None, 400)}        # kid ->
 INIT_L = {(1, 1), (2, 1), (2, 2)}                                      # (row, tag)
 LOCK_HOWS = ('get_for_update', 'nowait', 'skip_locked', 'query_for_update', 'query_nowait')
 
-WRITE_OPS = ('write', 'inc', 'copy', 'delete', 'delkid', 'movekid', 'newkid', 'setw', 'addtag', 'rmtag')
+NEW_R = {'x': 12, 'y': 22, 'z': 32, 'n': 42, 'f': 3.5, 'v': 62}
+ITEM_KINDS = ('iter', 'sorted', 'list', 'copy')          # collection reads that return the members themselves
+
+WRITE_OPS = ('write', 'inc', 'copy', 'delete', 'delkid', 'movekid', 'newkid', 'setw', 'addtag', 'rmtag', 'newrow')
 
 
 class Model(object):
@@ -179,8 +189,11 @@ def ref_apply(state, ops):
         elif k == 'write': row(op[1])[op[2]] = op[3]
         elif k == 'inc': row(op[1])[op[2]] = row(op[1])[op[2]] + 1
         elif k == 'copy': row(op[1])[op[2]] = row(op[3])[op[4]] + 1
-        elif k in ('flush', 'requery'): pass
-        elif k in ('lock', 'load', 'coll', 'rawread'): row(op[1])
+        elif k in ('flush', 'requery', 'commit', 'objflush'): pass
+        elif k in ('lock', 'load', 'coll', 'rawread', 'lift'): row(op[1])
+        elif k == 'newrow':
+            if op[1] in R: raise RefError('R exists')
+            R[op[1]] = dict(NEW_R)
         elif k == 'kattr':
             if op[1] not in K: raise RefError('K missing')
         elif k == 'delete':
@@ -217,6 +230,46 @@ def serial_results(sessions, state=None):
             for s in perm: st = ref_apply(st, s['ops'])
         except RefError: continue
         out[tuple(s['name'] for s in perm)] = st
+    return out
+
+
+def segments(sess):
+    """Split a session program at its ('commit',) ops: [(first op index, ops of the segment), ...]."""
+    out = []; cur = []; start = 0
+    for i, op in enumerate(sess['ops']):
+        if op[0] == 'commit':
+            out.append((start, cur)); cur = []; start = i + 1
+        else: cur.append(op)
+    out.append((start, cur))
+    return out
+
+
+def committed_units(sess, run):
+    """Segments of the session whose commit went through: all of them if the session committed, else those that
+    end with a ('commit',) op the run got past."""
+    segs = segments(sess)
+    if run.outcome == 'committed': n = len(segs)
+    else: n = len([c for c in run.commits_done])
+    return [{'name': '%s%d' % (sess['name'], j + 1), 'session': sess['name'], 'ops': ops} for j, (start, ops) in enumerate(segs[:n])]
+
+
+def serial_results_units(units_per_session, state=None):
+    """{order: final state} over all interleavings of the committed units that keep each session's own order."""
+    state = state or initial_state()
+    seqs = [u for u in units_per_session if u]
+    out = {}
+    def rec(pos, st, order):
+        if all(pos[i] == len(seqs[i]) for i in range(len(seqs))):
+            out[tuple(order)] = st; return
+        for i in range(len(seqs)):
+            if pos[i] < len(seqs[i]):
+                u = seqs[i][pos[i]]
+                try: st2 = ref_apply(st, u['ops'])
+                except RefError: continue
+                pos[i] += 1; order.append(u['name'])
+                rec(pos, st2, order)
+                order.pop(); pos[i] -= 1
+    rec([0] * len(seqs), state, [])
     return out
 
 
@@ -257,7 +310,9 @@ class SessionRun(object):
         self.obs = []                # (step, key, ('val', v) | ('exc', cls))
         self.steps_done = 0
         self.step = 0                # step being executed (int) or 'exit' (the commit at session end)
-        self.locked = set()          # rows obtained with a for_update variant (object actually returned)
+        self.refs = {}               # ('R'|'K', id) -> object reference kept by the program (for objflush after delete)
+        self.commits_done = []       # step indexes of ('commit',) ops that returned
+        self.locked = set()          # rows obtained with a for_update variant (object actually returned); cleared by commit
         self.lock_results = []       # (step, r, how, 'obj'|'none'|exc class)
         self.lock_marks = {}         # r -> (recorder seq, committed row) right after the locking call returned
         self.read_marks = {}         # r -> (recorder seq, committed row) right after the first read of R[r] returned
@@ -317,6 +372,20 @@ def exec_op(model, run, step, op):
         setattr(R[op[1]], op[2], (int(v) if op[2] != 'f' else v) + 1); return
     if k == 'flush':
         po.flush(); return
+    if k == 'commit':
+        po.commit()
+        run.commits_done.append(step)
+        run.locked.clear()           # the lock ended with the transaction
+        return
+    if k == 'newrow':
+        R(id=op[1], **NEW_R); return
+    if k == 'objflush':
+        o = run.refs.get((op[1], op[2]))                 # a deleted object cannot be looked up again: use the reference
+        if o is None: o = (R if op[1] == 'R' else K)[op[2]]
+        o.flush(); return
+    if k == 'lift':
+        r, c, a = op[1], op[2], op[3]
+        return observe(('R', r, c, 'lift:' + a), lambda: sorted(getattr(getattr(R[r], c), a)))
     if k == 'lock':
         r, how = op[1], op[2]
         try:
@@ -345,14 +414,28 @@ def exec_op(model, run, step, op):
         elif how == 'kids_all': po.select(c for c in K)[:]
         elif how == 'by_sql': R.select_by_sql('select * from R')
         elif how == 'tags_all': po.select(t for t in T)[:]
+        elif how == 'prefetch_kids': po.select(o for o in R).prefetch(R.kids)[:]
         else: raise ValueError(how)
         return
     if k == 'coll':
         r, c, how = op[1], op[2], op[3]
         o = R[r]
         coll = getattr(o, c)
-        if how == 'iter': return observe(('R', r, c, 'items'), lambda: _pkset(coll))
+        if how in ITEM_KINDS:
+            thunk = {'iter': lambda: _pkset(coll), 'sorted': lambda: _pkset(sorted(coll, key=lambda o: o._pkval_)),
+                     'list': lambda: _pkset(list(coll)), 'copy': lambda: _pkset(coll.copy())}[how]
+            v = observe(('R', r, c, 'items'), thunk)
+            if c == 'kids':          # seeing the members of a one-to-many collection is a read of member.parent
+                for kid in v: run.obs.append((step, ('K', kid, 'parent'), ('val', r), 'implied'))
+            return v
         if how == 'len': return observe(('R', r, c, 'len'), lambda: len(coll))
+        if how == 'bool': return observe(('R', r, c, 'bool'), lambda: bool(coll))
+        if how == 'load': coll.load(); return
+        if how.startswith('in:'):
+            item = (K if c == 'kids' else T)[int(how[3:])]
+            v = observe(('R', r, c, 'in', int(how[3:])), lambda: item in coll)
+            if c == 'kids' and v: run.obs.append((step, ('K', int(how[3:]), 'parent'), ('val', r), 'implied'))
+            return v
         if how == 'count': return observe(('R', r, c, 'count'), lambda: coll.count())
         if how == 'is_empty': return observe(('R', r, c, 'is_empty'), lambda: coll.is_empty())
         raise ValueError(how)
@@ -362,9 +445,9 @@ def exec_op(model, run, step, op):
             return observe(('K', kid, 'parent'), lambda: (lambda p: p._pkval_ if p is not None else None)(K[kid].parent))
         return observe(('K', kid, a), lambda: getattr(K[kid], a))
     if k == 'delete':
-        R[op[1]].delete(); return
+        o = run.refs[('R', op[1])] = R[op[1]]; o.delete(); return
     if k == 'delkid':
-        K[op[1]].delete(); return
+        o = run.refs[('K', op[1])] = K[op[1]]; o.delete(); return
     if k == 'movekid':
         K[op[1]].parent = R[op[2]] if op[2] is not None else None; return
     if k == 'newkid':
@@ -436,7 +519,8 @@ def run_schedule(model, sessions, chooser, levels=('op', 'lock'), watchdog=30.0,
         verb = sql[:6].upper()
         if verb in ('UPDATE', 'DELETE', 'INSERT'):
             rec = {'tag': ev['tag'], 'seq': ev['seq'], 'verb': verb, 'sql': sql, 'args': ev['args'],
-                   'step': getattr(by_tag.get(ev['tag']), 'step', None), 'before': model.committed_state()}
+                   'step': getattr(by_tag.get(ev['tag']), 'step', None),
+                   'locked': sorted(getattr(by_tag.get(ev['tag']), 'locked', ())), 'before': model.committed_state()}
             writes.append(rec)
     model.monitor = monitor if watch_writes else None
     try:
